@@ -85,6 +85,17 @@ def generate(rng, tier):
         for v in [3, "mar", "March", 13, "x"]:
             for seq in SEQS:
                 cases.append({"stream": "shape", "input": {"value": jv(v), "mws": seq, "shape": shape}})
+    # one middleware instance per stack position over a library of SEVERAL entries (ordinary use): values that collide
+    # under lower-casing / str() / int() next to each other, in both orders
+    fam = [["Jan", "jan", "JAN", "{Jan}", "{jan}"], [13, "13", "013", 1, "1", "01"], ["Spring", "spring", "SPRING"],
+           ["march", "March", "mar", "MAR", 3, "3", "03"], [0, "0", "00", ""], ["dec", "Dec", "december", 12, "12"]]
+    n_multi = 150 if tier == "quick" else 3000
+    for i in range(n_multi):
+        f = fam[i % len(fam)]
+        vs = [rng.choice(f) for _ in range(rng.randint(2, 5))]
+        if rng.random() < 0.3:
+            vs.insert(rng.randint(0, len(vs)), rng.choice(near[:12]))
+        cases.append({"stream": "multi", "input": {"values": [jv(v) for v in vs], "mws": rng.choice(SEQS)}})
     return cases
 
 
@@ -125,6 +136,8 @@ def impl(case):
     from bibtexparser.middlewares import MonthIntMiddleware, MonthAbbreviationMiddleware, MonthLongStringMiddleware
     MW = [MonthIntMiddleware, MonthAbbreviationMiddleware, MonthLongStringMiddleware]
     inp = case["input"]
+    if "values" in inp:
+        return impl_multi(case, MW)
     v = unjv(inp["value"])
     shape = inp["shape"]
     if shape == 0:
@@ -183,4 +196,47 @@ def impl(case):
     rec["nontrivial"] = (m is not None) or case["stream"] in ("near", "shape")
     rec["tags"] = ["month" if m is not None else "nonmonth"]
     rec["summary"] = repr([(f.key, f.value) for f in blk.fields])[:200] if type(blk).__name__ == "Entry" else type(blk).__name__
+    return rec
+
+
+def impl_multi(case, MW):
+    import enc
+    import implutil
+    from bibtexparser.library import Library
+    from bibtexparser.model import Entry, Field
+    inp = case["input"]
+    vs = [unjv(v) for v in inp["values"]]
+    entries = [Entry("article", "k%d" % i, [Field("month", v, 2)], start_line=i, raw="@article{k%d}" % i) for i, v in enumerate(vs)]
+    abstract = ("MonthIntMiddleware", "MonthAbbreviationMiddleware", "MonthLongStringMiddleware")
+    sx_in = [11, inp["mws"], [enc.enc_block(e, abstract) for e in entries]]
+
+    def run():
+        lib = Library(entries)
+        for k in inp["mws"]:
+            lib = MW[k]().transform(lib)
+        return lib
+    r = implutil.guarded(run)
+    rec = {"sx_in": sx_in, "key": json.dumps([inp["values"], inp["mws"]]), "nontrivial": True, "tags": ["multi"]}
+    if r[0] == "exc":
+        rec["sx_out"] = implutil.r_exc(r[1])
+        rec["oracle"] = {"ok": False, "detail": "middleware raised %s on month values %r" % (r[2], vs)}
+        rec["summary"] = "raised " + r[2]
+        return rec
+    lib = r[1]
+    rec["sx_out"] = implutil.r_ok([enc.enc_block(b, abstract) for b in lib.blocks])
+    if any(isinstance(v, str) and (not enc.lower_is_ascii_only(v) or (v.isdecimal() and not v.isascii())) for v in vs):
+        rec["skip"] = True
+    ok, detail = True, ""
+    if len(lib.blocks) != len(vs) or any(type(b).__name__ != "Entry" for b in lib.blocks):
+        ok, detail = False, "result is not one entry per entry"
+    else:
+        for i, (v, b) in enumerate(zip(vs, lib.blocks)):
+            got = b.fields[0].value if len(b.fields) == 1 else None
+            exp = expected(inp["mws"][-1], v)
+            if not (type(got) is type(exp) and got == exp) or b.key != "k%d" % i:
+                ok, detail = False, ("entry %d of a library with month values %r through %r: value %r gave %r (%s), expected %r" %
+                                     (i, vs, inp["mws"], v, got, type(got).__name__, exp))
+                break
+    rec["oracle"] = {"ok": ok, "detail": detail}
+    rec["summary"] = repr([b.fields[0].value for b in lib.blocks if type(b).__name__ == "Entry" and b.fields])[:200]
     return rec
